@@ -302,6 +302,7 @@ int parsec_vpmap_init_from_file(const char *filename)
 #endif
     /* Count the number of lines describing a VP for the process rank */
     while( getline(&line, &nline, f) != -1 ) {
+        line[strcspn(line, "\r\n")] = '\0';  /* the descriptions are joined with '\n' below */
         if( NULL != strchr(line, ':') && (line[0] != ':')) {
             tgt_rank = strtol(line, &rest_of_line, 0);
             if ( tgt_rank != rank ) {
@@ -309,13 +310,14 @@ int parsec_vpmap_init_from_file(const char *filename)
             }
         } else if( line[0] == ':' ) {
             /* no target proc specified, applies to all. */
+            rest_of_line = line;
         } else {
             parsec_warning("malformed line %s in vpmap description %s.", line, filename);
             continue;
         }
         /* Add the current vpmap description to the local_vpmap */
         parsec_nbvp++;
-        if( NULL == local_vpmap ) {
+        if( NULL != local_vpmap ) {
             asprintf(&next_string, "%s\n%s", local_vpmap, rest_of_line);
             free(local_vpmap);
         } else {
@@ -323,11 +325,13 @@ int parsec_vpmap_init_from_file(const char *filename)
         }
         local_vpmap = next_string;
     }
+    free(line);
     fclose(f);
 
     if( 0 == parsec_nbvp ) {
         /* If no description is available for the process, create one single-thread VP */
         parsec_inform("No VP parameter for the process %i: create one VP (single thread, unbound)", rank);
+        parsec_nbvp = -1;  /* the flat map refuses to overload an existing map */
         return parsec_vpmap_init_from_flat(-1);
     }
     /* We have some VP descriptions */
